@@ -570,6 +570,10 @@ def job_bounded(tier, rng, dim):
                                 n_st = dim * rank * (1 if real else 2)
                                 run('stiefel_qr', lambda x: ms.to_stiefel_qr(x, dim, rank), n_st, lambda R, t: _stiefel_ok(R, dim, rank, t), backend, ftype, batch, scale, real=real, rank=rank)
                                 run('stiefel_polar', lambda x: ms.to_stiefel_polar(x, dim, rank), n_st, lambda R, t: _stiefel_ok(R, dim, rank, t * 100), backend, ftype, batch, min(scale, 1.0), real=real, rank=rank)
+                                if ftype is np.float64 and scale == 0.1:
+                                    # the polar map is invariant under theta -> c*theta: tiny parameter vectors are ordinary inputs (float64; float32 would underflow in theta^dagger theta)
+                                    for tiny in (1e-4, 1e-8):
+                                        run('stiefel_polar', lambda x: ms.to_stiefel_polar(x, dim, rank), n_st, lambda R, t: _stiefel_ok(R, dim, rank, 1e-7), backend, ftype, batch, tiny, real=real, rank=rank)
                                 n_ch = (dim * rank - (rank * (rank + 1)) // 2) * (1 if real else 2)
                                 if n_ch > 0:
                                     run('stiefel_choleskyL', lambda x: ms.to_stiefel_choleskyL(x, dim, rank), n_ch, lambda R, t: _stiefel_ok(R, dim, rank, t * 100), backend, ftype, batch, min(scale, 10.0 if ftype is np.float64 else 1.0), real=real, rank=rank)
@@ -586,7 +590,13 @@ def job_bounded(tier, rng, dim):
                             for order in (1, 2, 3):
                                 run('cayley', lambda x: mi.to_special_orthogonal_cayley(x, dim, order), _so_n(dim, real), lambda R, t: _su_ok(R, dim, t, det1=real), backend, ftype, batch, scale, real=real, order=order)
                     run('simplex_sphere', mi.to_discrete_probability_sphere, dim, lambda R, t: R.min() >= 0 and np.abs(R.sum(axis=-1) - 1).max() < t * 10, backend, ftype, batch, scale)
-                    run('simplex_softmax', mi.to_discrete_probability_softmax, dim, lambda R, t: R.min() >= 0 and np.abs(R.sum(axis=-1) - 1).max() < t * 10, backend, ftype, batch, min(scale, 10.0))
+                    run('simplex_softmax', mi.to_discrete_probability_softmax, dim, lambda R, t: R.min() >= 0 and np.abs(R.sum(axis=-1) - 1).max() < t * 10, backend, ftype, batch, scale)
+                    if batch:
+                        # rows at very different offsets (|theta_i| <= 1e2): every row must be normalised on its own
+                        def fn_off(x):
+                            off = np.linspace(-95, 95, int(np.prod(batch))).reshape(batch + (1,)).astype(ftype)
+                            return mi.to_discrete_probability_softmax(x + (torch.tensor(off) if backend == 'torch' else off))
+                        run('simplex_softmax_row_offsets', fn_off, dim, lambda R, t: R.min() >= 0 and np.abs(R.sum(axis=-1) - 1).max() < t * 10, backend, ftype, batch, min(scale, 1.0))
                     run('open_interval', lambda x: mi.to_open_interval(x, -1.5, 2.5), dim, lambda R, t: (R.min() >= -1.5) and (R.max() <= 2.5) and (scale > 1 or (R.min() > -1.5 and R.max() < 2.5)), backend, ftype, batch, scale)   # expit saturates to exactly 0/1 in floating point for |theta| > 17 (float32) / 37 (float64): strictness is required for scale <= 1 only
                     run('positive_softplus', mi.to_positive_real_softplus, dim, lambda R, t: R.min() >= 0 and (scale > 1 or R.min() > 0), backend, ftype, batch, scale)
                     run('positive_exp', mi.to_positive_real_exp, dim, lambda R, t: R.min() >= 0 and (scale > 1 or R.min() > 0), backend, ftype, batch, min(scale, 10.0))
